@@ -13,19 +13,6 @@ Theorem C05_refuted_raw_sql_write_leaves_query_results :
 Proof. exact results_stale_after_raw_write. Qed.
 Print Assumptions C05_refuted_raw_sql_write_leaves_query_results.
 
-(* q.count() ; obj.delete() (or any unflushed change) ; q.count() : Query._aggregate reads cache.query_results before
-   anything flushed the session, so the second count is the old number; with the flush in front it is transparent *)
-Theorem C05_refuted_aggregate_result_cache_skips_flush :
-  forall DB W Q R (qeqb : Q -> Q -> bool) (exec : DB -> Q -> R) (apply : DB -> W -> DB) db q w,
-  qeqb q q = true -> exec (apply db w) q <> exec db q ->
-  let h := [SAggregate W Q q; SModify W Q w; SAggregate W Q q] in
-  forall raw_clears,
-  srun DB W Q R qeqb exec apply raw_clears false (mksess DB W Q R db [] []) h <> cold_run DB W Q R exec apply db [] h /\
-  srun DB W Q R qeqb exec apply raw_clears false (mksess DB W Q R db [] []) h = [Some (exec db q); None; Some (exec db q)] /\
-  srun DB W Q R qeqb exec apply raw_clears true (mksess DB W Q R db [] []) h = cold_run DB W Q R exec apply db [] h.
-Proof. exact aggregate_stale_after_unflushed_modification. Qed.
-Print Assumptions C05_refuted_aggregate_result_cache_skips_flush.
-
 (* the theorems' hypotheses are necessary: an unsound key, and a translator cache without the pinned-value comparison *)
 Theorem C05_unsound_key_is_observable : forall I K V (keqb : K -> K -> bool) (key : I -> K) (compute : I -> V) i1 i2,
   (forall k, keqb k k = true) -> key i1 = key i2 -> compute i1 <> compute i2 ->
@@ -33,6 +20,6 @@ Theorem C05_unsound_key_is_observable : forall I K V (keqb : K -> K -> bool) (ke
 Proof. exact memo_unsound. Qed.
 Print Assumptions C05_unsound_key_is_observable.
 
-(* the code as it is (flags read from pony/orm/core.py on every run, Gen/C05Flags.v): when a flag becomes true - the
-   hole was repaired in the source - the corresponding known finding must stop reproducing *)
+(* the code as it is (flags read from pony/orm/core.py on every run, Gen/C05Flags.v); aggr_flushes_in_source has been true
+   since repo commit 2af0689 (the former finding aggregate-result-cache-skips-flush is recorded as fixed) *)
 Definition C05_flags_read_from_source : bool * bool := (raw_clears_in_source, aggr_flushes_in_source).
